@@ -12,6 +12,9 @@ import (
 
 func init() { register("C15", ruleC15Range, ruleC15Trichotomy, ruleC15ExactDomain, ruleC15Dispatch) }
 
+// ORDER BY is deterministic (C12) and a sort at all (C05) only if the comparator treats (a, b) and (b, a) alike
+func init() { register("C12", ruleC15Dispatch); register("C05", ruleC15Dispatch) }
+
 var numericKinds = []types.BasicKind{types.Int, types.Int8, types.Int16, types.Int32, types.Int64, types.Uint, types.Uint8, types.Uint16, types.Uint32, types.Uint64, types.Float32, types.Float64}
 
 func (c *Ctx) compareFuncs() (cmp *ssa.Function, cmps, compares, ases []*ssa.Function) {
@@ -433,8 +436,12 @@ func ruleC15Dispatch(c *Ctx) {
 						left = true
 					}
 				}
-				if !(left && t.Args[1].Contains(func(x *Term) bool { return x.Op == "param" && x.Name == v })) {
-					ok, why = false, "numeric arm does not forward (a, v) in order: "+t.String()
+				// the right operand is handed over as it is (the operand itself, or its asserted numeric value): a value
+				// computed from it (a string parsed as a number, say) makes number-vs-string differ from string-vs-number
+				right := len(t.Args) == 2 && (t.Args[1].Op == "param" && t.Args[1].Name == v ||
+					t.Args[1].Op == "ext" && t.Args[1].Name == "0" && t.Args[1].Args[0].Op == "assertok" && t.Args[1].Args[0].Args[0].Op == "param" && t.Args[1].Args[0].Args[0].Name == v && t.Args[1].Args[0].Name != "string")
+				if !(left && right) {
+					ok, why = false, "numeric arm does not forward (a, v) in order and as they are: "+t.String()
 				}
 				if f.Origin() != nil && cal.Params[0].Type().String() != f.Params[0].Type().String() {
 					ok, why = false, "Cmp instance type differs from T"
